@@ -246,6 +246,10 @@ def run(tier, ev):
         seeds.append(env.seed() % (2 ** 32))
     if tier == "quick":
         seeds = [0, 1, 42, 2 ** 31 - 1] + ([env.seed() % (2 ** 32)] if env.seed() not in (0, 1, 42, 2 ** 31 - 1) else [])
+    # integer seeds of other types (a seed taken from a numpy array or generator); functions built on random.seed refuse
+    # them (TypeError on this Python): such a refusal is recorded as not exercised, an accepted seed must determine the
+    # result like any other
+    seeds = list(seeds) + [np.int64(5), np.uint8(7)]
     items = []
     for f in fns:
         if f not in G:
@@ -262,17 +266,22 @@ def run(tier, ev):
     res = explore.parallel_map(_work, items, env.nproc(), chunk=1)
     viols = []
     n = 0
+    unsupported = set()
     for r in res:
         n += r["n"]
         if r["error"]:
-            ev.cov["not_exercised"].append(f"{r['item']}: call raised {r['error']}")
+            if not isinstance(r["item"][2], int) and ("seed" in r["error"] or "random.Random" in r["error"]):
+                unsupported.add(r["item"][0])
+            else:
+                ev.cov["not_exercised"].append(f"{r['item']}: call raised {r['error']}")
         for msg, case in r["viols"]:
             case = dict(case)
             case.update({"check": "c17", "kind": "seed"})
             viols.append(Violation(PROP, "seed-not-determining", msg, case, {"function": case["name"]}))
     ev.add(states=len(items), transitions=n, evaluations=n, distinct_nontrivial=len(items))
     ev.cov["seeded_functions"] = fns
-    ev.cov["seeds"] = seeds
+    ev.cov["seeds"] = [repr(x) for x in seeds]
+    ev.cov["functions_refusing_numpy_integer_seeds"] = sorted(unsupported)
     ev.cov["exhaustive"] = True
     ev.cov["notes"].append("exhaustive over the stated menus; seed values are a menu, not all integers")
     ev.sample({"function": "watts_strogatz_hypergraph", "seed": 42, "between_calls": ["draw-numpy"]})
